@@ -419,6 +419,22 @@ def opIntersect (j : Json) : Except String Json := do
   pure (Json.mkObj [("hit", Json.arr res.toArray)])
 
 
+/-- `_broadcast_args` on a batch of (N, subset, argument) cases; the argument is a scalar (`x`) or an array (`xs`) -/
+def opBroadcast (j : Json) : Except String Json := do
+  let cases ← listOf (fun c => do
+      let N ← nat (← field c "N")
+      let subset ← nats (← field c "subset")
+      let lab ← match field c "x" with
+        | .ok x => do pure (Plot.Labels.scalar (← int x))
+        | .error _ => do pure (Plot.Labels.array (← ints (← field c "xs")))
+      pure (N, subset, lab)) (← field j "cases")
+  let res := cases.map fun (N, subset, lab) =>
+    match Plot.broadcast N subset lab with
+    | some l => jints l
+    | none => Json.null
+  pure (Json.mkObj [("out", Json.arr res.toArray)])
+
+
 /-! ### C17: index space of the de Bruijn grid -/
 
 def opQuasi (j : Json) : Except String Json := do
@@ -454,6 +470,7 @@ def dispatch (op : String) (j : Json) : Except String Json :=
   | "sampling" => opSampling j
   | "voro" => opVoro j
   | "intersect" => opIntersect j
+  | "broadcast" => opBroadcast j
   | "quasi" => opQuasi j
   | "truncate" => opTruncate j
   | "metric" => opMetric j
